@@ -3107,13 +3107,29 @@ func generateRandomizedSpec(
 		ks := KeyShareExtension{[]KeyShare{
 			{Group: X25519}, // the key for the group will be generated later
 		}}
+		// An X25519MLKEM768 key share is offered exactly when the group is advertised in
+		// supported_groups: a share for an unlisted group is illegal (RFC 8446, section 4.2.8),
+		// and advertising the hybrid group without a share forces a HelloRetryRequest.
+		hybridKeyShare := false
+		for _, curveID := range curveIDs {
+			if curveID == X25519MLKEM768 {
+				hybridKeyShare = true
+			}
+		}
 		if r.FlipWeightedCoin(id.Weights.FirstKeyShare_Set_CurveP256) { // legacy setting, not used by default
 			ks.KeyShares[0].Group = CurveP256
+			if hybridKeyShare {
+				ks.KeyShares = append(ks.KeyShares, KeyShare{Group: X25519MLKEM768})
+			}
 		} else {
 			if r.FlipWeightedCoin(id.Weights.KeyShare_Append_RandomGroups) {
 				ks.KeyShares = append(ks.KeyShares, KeyShare{Group: CurveP256})
 			}
-			if r.FlipWeightedCoin(id.Weights.KeyShare_Append_RandomGroups) {
+			// This flip used to decide, independently of supported_groups, whether the hybrid
+			// share is sent. It is still drawn so that the PRNG stream, and with it every other
+			// choice made for a given seed, stays the same.
+			r.FlipWeightedCoin(id.Weights.KeyShare_Append_RandomGroups)
+			if hybridKeyShare {
 				ks.KeyShares = append([]KeyShare{{Group: X25519MLKEM768}}, ks.KeyShares...)
 			}
 		}
